@@ -37,6 +37,11 @@ value := 3+4*2
 other = value<<2
 lda #value&0xff
 lda.w #other|1
+lda #0x12ab >> 8
+lda.w #1 << 4
+.db 1 << 4, 0x80 >> 3
+shifted = 0xF0 >> 4
+.db shifted
 {
 inner:
 bra inner
@@ -89,6 +94,12 @@ lda #3
 {
 lda #4
 }
+a := 0x10
+A := 0x21
+asl a
+rol a
+dec A
+lsr a
 done:
 .dw done
 """,
